@@ -290,6 +290,12 @@ class Sym:
                 if (tv is not None and tv != p) or (A.norm(e), not p) in lits:
                     ok = False
                     break
+                # `x is None` cannot hold where the path has seen isinstance(x, ...) answer yes
+                if p and isinstance(e, ast.Compare) and len(e.ops) == 1 and isinstance(e.ops[0], ast.Is) and A.is_none(e.comparators[0]):
+                    subj = A.norm(e.left)
+                    if any(p2 and tx.startswith("isinstance(") and (A.isinstance_types(_parse(tx)) or ("",))[0] == subj for (tx, p2) in lits):
+                        ok = False
+                        break
             if ok:
                 out.append(c)
         return out
@@ -720,7 +726,7 @@ def strategy_table(fa):
         ids = fa.nodes(n) if isinstance(n, (ast.expr, ast.stmt)) else []
         if not ids:
             continue
-        if isinstance(n, (ast.Dict, ast.DictComp)) or (isinstance(n, ast.Call) and A.call_dotted(n) == "dict.fromkeys"):
+        if isinstance(n, (ast.Dict, ast.DictComp)) or (isinstance(n, ast.Call) and A.call_dotted(n) in ("dict.fromkeys", "dict") and n.args):
             ent = table_entries(fa, n, ids[0])
             if ent:
                 pairs += [(k, v, ids[0]) for (k, v) in ent]
@@ -735,6 +741,8 @@ def strategy_table(fa):
             if not (dk and dk.startswith("ResultType.")):
                 continue
             ve = fa.expand(v, at)
+            if isinstance(ve, ast.Call) and isinstance(ve.func, ast.Call) and A.call_attr(ve.func) == "partial" and ve.func.args:
+                ve = ast.Call(func=ve.func.args[0], args=list(ve.func.args[1:]) + list(ve.args), keywords=[])   # partial(C, a)() is C(a)
             table[dk.split(".")[1]] = A.call_attr(ve) if isinstance(ve, ast.Call) else None
     return table
 
@@ -1767,13 +1775,19 @@ def check_forget_reaches_answers(ck, R):
         for src in sources:
             src_txt = "%s.%s" % (sme, src)
             events = []
-            for c in fa.calls(name):
-                r = A.call_recv(c)
-                if r is None or fa.xnorm(r) != src_txt or not fa.unconditional(c):
+            sends = [(c, A.call_recv(c), list(c.args)) for c in fa.calls(name)]
+            # `forget = operator.methodcaller("forget_x", arg)` ... `forget(self.src)` sends the same message
+            for c in fa.calls():
+                if isinstance(c.func, ast.Name) and fa.df.is_local(c.func.id) and len(c.args) == 1 and not c.keywords and fa.nodes(c):
+                    mc = fa.expand(c.func)
+                    if isinstance(mc, ast.Call) and A.call_attr(mc) == "methodcaller" and mc.args and A.const_str(mc.args[0]) == name:
+                        sends.append((c, c.args[0], list(mc.args[1:])))
+            for (c, r, sent) in sends:
+                if r is None or not fa.nodes(c) or fa.xnorm(r, fa.nodes(c)[0]) != src_txt or not fa.unconditional(c):
                     continue
                 if explicit:
                     try:
-                        if not (c.args and ("param:" + explicit[0]) in fa.deps(c.args[0])):
+                        if not (sent and ("param:" + explicit[0]) in fa.deps(sent[0], fa.nodes(c)[0])):
                             continue
                     except AnalysisError:
                         continue
